@@ -91,86 +91,108 @@ def iterStatusName : IStatus → String
   | .elected => "elected" | .omega => "omega" | .stable => "stable" | .batch _ => "batch"
   | .crash => "crash" | .fuel => "fuel"
 
+def St.setVotes (s : St α) (v : α) : St α := { s with votes := v }
+
+/-- hopefuls that reached the quota in this iteration -/
+def meekWinners (s : St α) : List (Cand α) := s.hopeful.filter (hasQuotaX A s)
+
+/-- one iteration up to the convergence test: distribute, recompute the quota, elect, total surplus (clamped at 0) -/
+def meekIterCore (o : MeekOpts) (s : St α) : St α :=
+  let s3 : St α := ((distributeVotes A o.warren s).setVotes (activeVotes A (distributeVotes A o.warren s))).setQuota
+      (meekQuota A ((distributeVotes A o.warren s).setVotes (activeVotes A (distributeVotes A o.warren s))))
+  let s4 : St α := (meekWinners A s3).foldl (fun acc c => acc.elect A c.cid "Elect" false) s3
+  s4.setSurplus (if A.lt (A.sum (s4.elected.map (fun c => A.sub c.vote s4.quota))) A.zero then A.zero
+                 else A.sum (s4.elected.map (fun c => A.sub c.vote s4.quota)))
+
+/-- did the iteration elect anybody? (the winners are computed on the state before the election step) -/
+def meekIterElected (o : MeekOpts) (s : St α) : Bool :=
+  !(meekWinners A (((distributeVotes A o.warren s).setVotes (activeVotes A (distributeVotes A o.warren s))).setQuota
+      (meekQuota A ((distributeVotes A o.warren s).setVotes (activeVotes A (distributeVotes A o.warren s)))))).isEmpty
+
 /-- meek.py iterate(): returns the state and the reason the iteration ended -/
 def meekIterate (o : MeekOpts) (omega : α) : Nat → α → St α → St α × IStatus
   | 0, _, s => (s, .fuel)
   | fuel+1, lastsurplus, s =>
-    let s1 := distributeVotes A o.warren s
-    let s2 := { s1 with votes := activeVotes A s1 }
-    let s3 := { s2 with quota := meekQuota A s2 }
-    let winners := s3.hopeful.filter (hasQuotaX A s3)
-    let s4 := winners.foldl (fun acc c => acc.elect A c.cid "Elect" false) s3
-    let sp := A.sum (s4.elected.map (fun c => A.sub c.vote s4.quota))
-    let s5 := { s4 with surplus := if A.lt sp A.zero then A.zero else sp }
-    if !winners.isEmpty then (s5, .elected)
-    else if A.le s5.surplus omega then (s5, .omega)
-    else if A.ge s5.surplus lastsurplus then
-      (s5.logMsg "Stable state detected" [] (some s5.surplus), .stable)
-    else
-      let batch := if o.batchSafe then batchDefeatGroups A s5 s5.surplus else []
-      if !batch.isEmpty then (s5, .batch (batch.map (·.cid)))
-      else
-        let s6 := kfUpdate A s5
-        if s6.crash.isSome then (s6, .crash) else meekIterate o omega fuel s5.surplus s6
+    if meekIterElected A o s then (meekIterCore A o s, .elected)
+    else if A.le (meekIterCore A o s).surplus omega then (meekIterCore A o s, .omega)
+    else if A.ge (meekIterCore A o s).surplus lastsurplus then
+      ((meekIterCore A o s).logMsg "Stable state detected" [] (some (meekIterCore A o s).surplus), .stable)
+    else if !(if o.batchSafe then batchDefeatGroups A (meekIterCore A o s) (meekIterCore A o s).surplus else []).isEmpty then
+      (meekIterCore A o s, .batch ((if o.batchSafe then batchDefeatGroups A (meekIterCore A o s) (meekIterCore A o s).surplus else []).map (·.cid)))
+    else if (kfUpdate A (meekIterCore A o s)).crash.isSome then (kfUpdate A (meekIterCore A o s), .crash)
+    else meekIterate o omega fuel (meekIterCore A o s).surplus (kfUpdate A (meekIterCore A o s))
 
 def meekCountComplete (s : St α) : Bool :=
   decide ((s.hopeful.length : Int) ≤ s.seatsLeft) || decide (s.seatsLeft ≤ 0)
 
 def meekDefeatOne (o : MeekOpts) (s : St α) (cid : Nat) (verb : String) : St α :=
-  let s1 := s.defeat A cid verb
-  distributeVotes A o.warren (s1.upd cid (fun c => { c with kf := some A.zero, vote := A.zero }))
+  distributeVotes A o.warren ((s.defeat A cid verb).upd cid (fun c => { c with kf := some A.zero, vote := A.zero }))
 
-def meekBody (o : MeekOpts) (omega : α) (iterFuel : Nat) (s : St α) : St α × Flow :=
-  let s1 := s.newRound A
-  let r := meekIterate A o omega iterFuel (A.ofInt s1.nballots) s1
+/-- defeat a safe batch, in ballot order -/
+def meekDefeatBatch (o : MeekOpts) (s : St α) (cids : List Nat) : St α :=
+  (byBallotOrder (s.cands.filter (fun c => cids.contains c.cid))).foldl
+    (fun acc c => meekDefeatOne A o acc c.cid "Defeat certain loser") s
+
+/-- defeat the lowest candidate (all within the surplus of the lowest are tied) -/
+def meekDefeatLow (o : MeekOpts) (s : St α) (isOmega : Bool) : St α × Flow :=
+  match s.hopeful with
+  | [] => (s, .cont)
+  | h :: hs =>
+    match breakTie A s (s.hopeful.filter (fun c => A.ge (A.add (A.vMin h.vote (hs.map (·.vote))) s.surplus) c.vote))
+            "Break tie (defeat)" with
+    | (s3, some lc) =>
+      (meekDefeatOne A o s3 lc.cid (if isOmega then "Defeat (surplus < omega)" else "Defeat (stable surplus)"), .cont)
+    | (s3, none) => (s3, .brk)
+
+/-- what follows the iteration of a round -/
+def meekAfterIterate (o : MeekOpts) (r : St α × IStatus) : St α × Flow :=
   match r.2 with
   | .fuel => (r.1.setCrash "FUEL", .brk)
   | .crash => (r.1, .brk)
-  | st =>
-    let s2 := r.1.logAct A "iterate" ("Iterate (" ++ iterStatusName st ++ ")") []
-    match st with
-    | .elected => (s2, .cont)
-    | .batch cids =>
-      ((byBallotOrder (s2.cands.filter (fun c => cids.contains c.cid))).foldl
-         (fun acc c => meekDefeatOne A o acc c.cid "Defeat certain loser") s2, .cont)
-    | _ =>
-      match s2.hopeful with
-      | [] => (s2, .cont)
-      | h :: hs =>
-        let lowv := A.vMin h.vote (hs.map (·.vote))
-        let lows := s2.hopeful.filter (fun c => A.ge (A.add lowv s2.surplus) c.vote)
-        match breakTie A s2 lows "Break tie (defeat)" with
-        | (s3, some lc) =>
-          (meekDefeatOne A o s3 lc.cid (if st matches .omega then "Defeat (surplus < omega)" else "Defeat (stable surplus)"), .cont)
-        | (s3, none) => (s3, .brk)
+  | .elected => (r.1.logAct A "iterate" "Iterate (elected)" [], .cont)
+  | .batch cids => (meekDefeatBatch A o (r.1.logAct A "iterate" "Iterate (batch)" []) cids, .cont)
+  | .omega => meekDefeatLow A o (r.1.logAct A "iterate" "Iterate (omega)" []) true
+  | .stable => meekDefeatLow A o (r.1.logAct A "iterate" "Iterate (stable)" []) false
+
+def meekBody (o : MeekOpts) (omega : α) (iterFuel : Nat) (s : St α) : St α × Flow :=
+  meekAfterIterate A o (meekIterate A o omega iterFuel (A.ofInt (s.newRound A).nballots) (s.newRound A))
+
+/-- first-preference tallies: `b.topCand.vote += multiplier`, equal-ranked tops share it -/
+def meekFirstCount (s : St α) : St α :=
+  s.ballotsEq.foldl (fun (acc : St α) (b : BallotEq α) =>
+      match b.rank.head? with
+      | some grp => grp.foldl (fun (acc2 : St α) (cid : Nat) =>
+            acc2.addVote A cid (A.mulV (A.divV A.one (A.ofInt grp.length)) (A.ofInt b.mult))) acc
+      | none => acc)
+    (s.ballots.foldl (fun (acc : St α) (b : Ballot α) => match b.top with
+                                           | some c => acc.addVote A c (A.ofInt b.mult)
+                                           | none => acc) s)
+
+def St.initKf (s : St α) (one : α) : St α :=
+  { s with cands := s.cands.map (fun (c : Cand α) => if c.st == .hopeful then { c with kf := some one } else c) }
+
+def meekInit (s0 : St α) : St α :=
+  (meekFirstCount A (((s0.setVotes (A.ofInt s0.nballots)).setQuota (meekQuota A (s0.setVotes (A.ofInt s0.nballots)))).initKf A.one)).logAct A
+    "begin" "Begin Count" []
+
+/-- elect or defeat one of the candidates left when the count is complete -/
+def meekRemainingStep (o : MeekOpts) (acc : St α) (c : Cand α) : St α :=
+  if acc.elected.length < acc.seats then distributeVotes A o.warren (acc.elect A c.cid "Elect remaining" false)
+  else meekDefeatOne A o acc c.cid "Defeat remaining"
+
+/-- the final figures: votes = those of the elected, residual = the rest -/
+def meekFinal (s : St α) : St α :=
+  ((s.setVotes (A.sum (s.elected.map (·.vote)))).setResidual (A.sub (A.ofInt s.nballots) (A.sum (s.elected.map (·.vote)))))
+
+def meekEpilogue (o : MeekOpts) (s : St α) : St α :=
+  if s.crash.isSome then s else meekFinal A (s.hopeful.foldl (meekRemainingStep A o) s)
 
 def meekCount (o : MeekOpts) (iterFuel : Nat) (s0 : St α) : Option (St α) :=
   if A.name == "integer" then some (s0.setCrash "AssertionError") else
-  let omega := A.divV A.one (A.ofInt (10 ^ o.omega10))
-  let s1 : St α := { s0 with votes := A.ofInt s0.nballots }
-  let s2 : St α := { s1 with quota := meekQuota A s1 }
-  let s3 : St α := { s2 with cands := s2.cands.map (fun (c : Cand α) => if c.st == .hopeful then { c with kf := some A.one } else c) }
-  let s4 : St α := s3.ballots.foldl (fun (acc : St α) (b : Ballot α) => match b.top with
-                                           | some c => acc.addVote A c (A.ofInt b.mult)
-                                           | none => acc) s3
-  let s5 : St α := s4.ballotsEq.foldl (fun (acc : St α) (b : BallotEq α) =>
-              match b.rank.head? with
-              | some grp => grp.foldl (fun (acc2 : St α) (cid : Nat) =>
-                    acc2.addVote A cid (A.mulV (A.divV A.one (A.ofInt grp.length)) (A.ofInt b.mult))) acc
-              | none => acc) s4
-  let s6 := s5.logAct A "begin" "Begin Count" []
-  match loopN (fun s => !meekCountComplete s) (meekBody A o omega iterFuel) (2 * s0.cands.length + 3) s6 with
+  match loopN (fun s => !meekCountComplete s) (meekBody A o (A.divV A.one (A.ofInt (10 ^ o.omega10))) iterFuel)
+      (2 * s0.cands.length + 3) (meekInit A s0) with
   | none => none
-  | some s7 =>
-    if s7.crash.isSome then some s7 else
-    let s8 := s7.hopeful.foldl (fun acc c =>
-      if acc.elected.length < acc.seats then
-        distributeVotes A o.warren (acc.elect A c.cid "Elect remaining" false)
-      else
-        distributeVotes A o.warren
-          ((acc.defeat A c.cid "Defeat remaining").upd c.cid (fun x => { x with kf := some A.zero, vote := A.zero }))) s7
-    let v := A.sum (s8.elected.map (·.vote))
-    some { s8 with votes := v, residual := A.sub (A.ofInt s8.nballots) v }
+  | some s7 => some (meekEpilogue A o s7)
 
 /-! ## meek-prf -/
 def prfRankStep (mult : α) (acc : St α × α × α × Bool) (cid : Nat) : St α × α × α × Bool :=
